@@ -172,6 +172,24 @@ pub fn run(ctx: &Ctx) -> i32 {
     }
 
     // Absent cels and links: every subset of present cells, every (src,dst) link
+    // all 65,536 (layer opacity, cel opacity) pairs: the cel image's alpha is scaled by the rounded product
+    if ctx.wants_family("opacity-pairs") {
+        ctx.family("opacity-pairs", 65536, "all 65,536 (layer opacity, cel opacity) pairs on a 3x1 RGBA cel with alphas 255, 128 and 1: cel image and frame image compared with the model (alpha = MUL_UN8(a, MUL_UN8(layer, cel)))", true);
+        (0..65536u32).into_par_iter().for_each(|k| {
+            let (lo, co) = ((k >> 8) as u8, k as u8);
+            let case = || format!("layer={} cel={}", lo, co);
+            if !ctx.wants("opacity-pairs", &case) {
+                return;
+            }
+            let fmt = Fmt::Rgba;
+            let mut f = gen::file(3, 1, &fmt, &[10]);
+            let mut l = Layer::image("l");
+            l.opacity = lo;
+            f.frames[0].push(Body::Layer(l));
+            f.frames[0].push(raw_cel(0, 0, 0, co, 3, 1, vec![200, 100, 50, 255, 10, 20, 30, 128, 90, 80, 70, 1]));
+            conform(ctx, "opacity-pairs", &case, &f, &want);
+        });
+    }
     if ctx.wants_family("absent") {
         let cases: Vec<u32> = (0..64).collect();
         ctx.family("absent", 64 * 3, "2 frames x 3 layers: every subset of the 6 cells present (3 formats); absent cells must report empty, offset (0,0) and a transparent image", true);
